@@ -57,16 +57,19 @@ def generate(seed, tier="quick", mode=None, **kw):
             lines[-1]["eol"] = ""
         files.append({"path": p, "lines": lines})
     plan = {"family": NAME, "seed": seed, "mode": mode, "files": files, "dirs": dirs, "opts": o,
-            "knobs": [GC.gen_knobs(r) for _ in range(4)], "entry": r.choice(["cli", "cli", "files"])}
+            "knobs": [GC.gen_knobs(r) for _ in range(4)],
+            "entry": r.choice(["cli", "cli", "files", "file", "io"] if mode == "undo" else ["cli", "cli", "files"])}
     if mode == "hist":
         # the hash-seed dimension belongs to C13/C10: hold the set order fixed across the compared executions
         for k in plan["knobs"]:
             k["set_key"] = plan["knobs"][0]["set_key"]
     if mode == "undo":
         plan["crash_at"] = r.randint(5, 40 + 25 * nfiles) if r.random() < 0.35 else None
-        plan["entry2"] = r.choice(["cli", "cli", "files"])
+        plan["entry2"] = r.choice(["cli", "cli", "files", "file", "io"])
+        if plan["crash_at"] and plan["entry"] == "io":
+            plan["entry"] = "files"
     else:
-        variants = r.sample(["perfile", "split", "listing", "between", "failing", "crash_rerun", "dump"], r.randint(2, 3))
+        variants = r.sample(["perfile", "split", "listing", "between", "failing", "crash_rerun", "dump", "pre_undo"], r.randint(2, 3))
         plan["variants"] = variants
         plan["perfile_order"] = r.sample(paths, len(paths))
         plan["perfile_entries"] = [r.choice(["cli", "files", "file"]) for _ in paths]
@@ -253,6 +256,17 @@ def _check_hist(plan):
                 probes["crash_rerun_prefix_files"] += len(done)
                 got = {p: h["snap"]["files"].get(W.mirror("in", "out", p)) for p in paths}
                 compare("files completed before a crash vs. the re-run", got, done)
+        elif v == "pre_undo" and o["ip"]:
+            # library use: the same process first ran an undo over this tree (other output), then the forward run
+            o_undo = dict(o, ip=False, undo=True, words=None)
+            o_undo["as"] = None
+            X = W.run_world({"disk": _disk(plan), "procs": [{"knobs": plan["knobs"][2], "faults": [], "steps": [
+                _step(plan, "files", "in", "tmp-undo", opts=o_undo), _step(plan, plan["entry"], "in", "out")]}]})
+            h = X["procs"][0]
+            steps += h["nsys"]
+            digest_items.append(W.public_hist(h))
+            got = {p: X["final"]["files"].get(W.mirror("in", "out", p)) for p in paths}
+            compare("an undo run over the same tree earlier in the same process", got, paths)
         elif v == "dump" and o["ip"]:
             X = W.run_world({"disk": _disk(plan), "procs": [{"knobs": plan["knobs"][3], "faults": [],
                                                                "steps": [_step(plan, plan["entry"], "in", "out", dump="map")]}]})
